@@ -17,10 +17,16 @@ Proof. differ. Qed.
 Definition w_let_values := [ELet [("x", EValues [ENil; I 1])] [EIf (EVar "x") (I 1) (Some (I 2))]].
 Lemma let_binds_values_refuted : fst (runM 60 w_let_values) <> fst (runS 60 w_let_values) /\ guardb 60 w_let_values = false.
 Proof. differ. Qed.
-(* (multiple-value-bind (a b) (progn (values 1 2)) (list a b)) : progn keeps only the first value *)
+(* repaired (repo_fixes/C01-10): progn is the sequence of its forms and returns every value of the last one.
+   (multiple-value-bind (a b) (progn (values 1 2)) (list a b)) => (1 2) in every mode *)
 Definition w_progn_values := [EMvb ["a"; "b"] (EProgn [EValues [I 1; I 2]]) [EPrim PList [EVar "a"; EVar "b"]]].
-Lemma progn_values_refuted : fst (runM 60 w_progn_values) <> fst (runS 60 w_progn_values) /\ guardb 60 w_progn_values = false.
-Proof. differ. Qed.
+Example progn_values_passed :
+  forallb (fun m => match fst (run m 60 w_progn_values) with Ok (VList [VInt 1; VInt 2]) => true | _ => false end) [Slip; Ref; Chk] = true.
+Proof. vm_compute; reflexivity. Qed.
+Lemma progn_is_sequence : forall m n st sc es, eval m (S n) st sc (EProgn es) = ev_seq (eval m n) st sc es VNil.
+Proof. reflexivity. Qed.
+Lemma progn_single : forall m n st sc e, eval m (S n) st sc (EProgn [e]) = eval m n st sc e.
+Proof. intros. simpl. destruct (eval m n st sc e) as [[v|er] s]; reflexivity. Qed.
 (* (if (car (mapcar (lambda (x) (values nil x)) '(1 2))) 1 2) : mapcar collects Values objects *)
 Definition w_mapcar_values :=
   [EIf (EPrim PCar [EMapcar (ELambda ["x"] [EValues [ENil; EVar "x"]]) [EQuote (DList [DInt 1; DInt 2])]]) (I 1) (Some (I 2))].
